@@ -40,9 +40,8 @@ theorem getModularity_eq_def (nRow nCol nnz : Nat) (B : Nat → Nat → Rat) (la
       o.mod = modularityDoc (modAdj nRow nCol B).1 (modAdj nRow nCol B).2 γ (labelAt lab) := by
   obtain ⟨lab, pr, pc, h1, h2, h3, -, rfl⟩ := getModularity_ok _ _ _ _ _ _ _ _ _ h
   refine ⟨lab, h1, ?_⟩
-  rw [modTerms_mod, modTerms_fit, modTerms_div, getProbs_degree _ _ _ h2, getProbs_degree _ _ _ h3,
-    totalWeight_transpose, ← fit_sub_div_eq_doc]
-  rfl
+  rw [modTerms_mod, modTerms_fit, modTerms_div, getProbs_degree_out _ _ _ h2, getProbs_degree_in _ _ _ h3,
+    ← fit_sub_div_eq_doc]
 
 /-- the undirected form of the documentation: `Q = (1/w) Σ_{i,j} (A_ij − γ d_i d_j / w) δ(c_i,c_j)` -/
 def modularityDocUndirected (n : Nat) (A : Nat → Nat → Rat) (γ : Rat) (c : Nat → Int) : Rat :=
@@ -88,7 +87,7 @@ theorem getModularity_eq_def_custom (nRow nCol nnz : Nat) (B : Nat → Nat → R
   rw [modTerms_mod, modTerms_fit, modTerms_div, getProbs_custom _ _ _ _ h2, getProbs_custom _ _ _ _ h3,
     fit_sub_div_eq_weighted]
 
-/-- non-vacuity: the `house` example of the docstring (labels 0,0,1,1,0) goes through and gives 9/80 ≈ 0.11 -/
+/-- non-vacuity: the `house` example of the docstring (labels 0,0,1,1,0) goes through and gives 1/9 ≈ 0.11 -/
 example :
     (getModularity 5 5 12
       (fun i j => if (i, j) ∈ [(0,1),(1,0),(0,4),(4,0),(1,2),(2,1),(1,4),(4,1),(2,3),(3,2),(3,4),(4,3)] then 1 else 0)
